@@ -8,9 +8,9 @@ import PyxModel.Extract.ToSql
     (c14-sql <diagram> <name|none> <T|F>)             -> (ok "<text written by gen_sql_schema.main>") | (error …)
     (c14-edit <diagram> <name|none> <T|F> (<edit>…))  -> (ok <extract d> <extract (applyEdits es d)>
                                                              <schemaEdits (resolveAll d es) (extract d)>)
-                                                        | (error MetaModelException)          mkComponent d = none
+                                                        | (error MetaModelException | AttributeError)   buildOutcome d
                                                         | (ok-error <extract d> MetaModelException)
-                                                                                mkComponent (applyEdits es d) = none
+                                                                                buildOutcome (applyEdits es d)
 -/
 namespace Pyx.Driver.C14
 open Pyx Pyx.Sexp Pyx.Extract Pyx.Extract.Wire
@@ -30,10 +30,12 @@ def handle : List Sexp → Option Sexp
       | some d, some n, some v, some es =>
         match selectComp d.containers n with
         | some comp =>
-          match mkComponent d comp v, mkComponent (applyEdits es d) comp v with
-          | none, _ => list [sym "error", sym "MetaModelException"]
-          | some s0, none => list [sym "ok-error", eSchema s0, sym "MetaModelException"]
-          | some s0, some s1 => list [sym "ok", eSchema s0, eSchema s1, eSchema (schemaEdits (resolveAll d comp v es) s0)]
+          match buildOutcome d comp v, buildOutcome (applyEdits es d) comp v with
+          | .metaModelException, _ => list [sym "error", sym "MetaModelException"]
+          | .attributeError, _ => list [sym "error", sym "AttributeError"]
+          | .ok s0, .metaModelException => list [sym "ok-error", eSchema s0, sym "MetaModelException"]
+          | .ok s0, .attributeError => list [sym "ok-error", eSchema s0, sym "AttributeError"]
+          | .ok s0, .ok s1 => list [sym "ok", eSchema s0, eSchema s1, eSchema (schemaEdits (resolveAll d comp v es) s0)]
         | none => list [sym "error", sym "OoaOfOoaException"]
       | _, _, _, _ => bad)
   | [sym "c14-sql", d, n, v] =>
@@ -42,12 +44,13 @@ def handle : List Sexp → Option Sexp
       | some d, some n, some v =>
         match selectComp d.containers n with
         | some comp =>
-          match mkComponent d comp v with
-          | some s =>
+          match buildOutcome d comp v with
+          | .ok s =>
             match Pyx.Sql.printItems Pyx.Sql.UC.ascii (s.toMM.persistDatabase Pyx.Sql.UC.ascii) with
             | some text => list [sym "ok", str (String.ofList text)]
             | none => list [sym "error", sym "unprintable"]
-          | none => list [sym "error", sym "MetaModelException"]
+          | .attributeError => list [sym "error", sym "AttributeError"]
+          | .metaModelException => list [sym "error", sym "MetaModelException"]
         | none => list [sym "error", sym "OoaOfOoaException"]
       | _, _, _ => bad)
   | _ => none
